@@ -89,6 +89,7 @@ def run(ctx, rep):
     expressions_are_typed_before_they_are_stored(F, rep)
     unwrap_assign_target_is_a_name(F, rep)
     folder_arithmetic_cannot_panic(F, rep)
+    generator_errors_are_propagated(F, rep)
     rep.extra["analysis_rounds"] = fl.rounds
     rep.extra["hand_assembled_option_unwraps_counted_not_judged"] = getattr(fl, "uncounted", 0)
     # K4 panics outside the clause: counted
@@ -729,3 +730,42 @@ def folder_arithmetic_cannot_panic(F, rep, rule="C16.folder-arith"):
     if not bad:
         rep.ob(rule, "the constant folder uses no integer operation that can panic on its operands", "ok", "%d core::num calls inspected" % n, None, key=rule + "|summary")
     rep.floor(rule + " core::num calls in the folder's module", n, 20)
+
+
+
+def generator_errors_are_propagated(F, rep, rule="C16.codegen-errors"):
+    """The code generator reports what it cannot compile as an `Err` (`bail!("cannot negate")`); the top level turns that into a diagnostic.  That only
+    works if every caller in between hands the error on: an `unwrap()` / `expect()` on the result of a `compile` / `compile_depth` call turns
+    every such diagnostic into a compiler panic as soon as the construct stands inside a block or an argument list.  (Who-may-unwrap rule over
+    the resolved callees.)  Likewise the type of an expression is computed with `bail!`, not with `assert_eq!`: Expr::for_type and its
+    closures contain no assertion (`"ab" or "abc"` used to trip one)."""
+    n, bad = 0, []
+    for f in F.crates["compiler"].fns:
+        if "::tests::" in f.path:
+            continue
+        for c in f.calls():
+            if c.callee().endswith("::compile") or "Compile>::compile" in c.callee() or c.callee().endswith("::compile_depth"):
+                n += 1
+        for c in f.calls():
+            if c.matches(("core::result::Result::unwrap", "core::result::Result::expect", "core::result::Result::unwrap_unchecked")) and c.args:
+                l = op_local(c.args[0])
+                for x in (rules.origin_calls(f, l, transparent=set()) if l is not None else []):
+                    if x.callee().endswith("::compile") or "Compile>::compile" in x.callee() or x.callee().endswith("::compile_depth"):
+                        bad.append((f, x, c))
+    seen = {}
+    for f, x, c in bad:
+        owner = mir.short(re.sub(r"::\{closure#\d+\}", "", f.path))
+        seen[owner] = seen.get(owner, 0) + 1
+        rep.ob(rule, "%s hands on the error of %s" % (owner, mir.short(x.callee())), "violated",
+               "the result is unwrapped: an error of the code generator inside this construct (`type N int` / `n: N = 5` / `if true { print -n }` used to be one) panics the compiler",
+               c.span, fn=f.path, key="%s|%s#%d" % (rule, owner, seen[owner]))
+    if not bad:
+        rep.ob(rule, "no result of the code generator is unwrapped on its way up", "ok", "%d compile calls inspected" % n, None, key=rule + "|summary")
+    rep.floor(rule + " calls of the code generator", n, 60)
+    ft = F.fn("compiler::ast::math_expr::Expr::for_type")
+    if ft is None:
+        raise AnchorMissing("Expr::for_type")
+    asserts = [c for g in [ft] + F.closures_of(ft) for c in g.calls() if "assert_failed" in c.callee()]
+    rep.ob(rule, "Expr::for_type reports a type mismatch with an error, not with an assertion", "violated" if asserts else "ok",
+           "%d assert_eq!/assert_ne! in the type computation: `x = \"ab\" or \"abc\"` panics the compiler" % len(asserts) if asserts else "", asserts[0].span if asserts else ft.span,
+           fn=ft.path, key=rule + "|for_type-asserts")
